@@ -5,6 +5,7 @@ import (
 	"go/token"
 	"go/types"
 	"path/filepath"
+	"strconv"
 	"strings"
 
 	"golang.org/x/tools/go/ssa"
@@ -57,6 +58,7 @@ type fsModel struct {
 	faults    int
 	maxFaults int
 	trace     []string
+	writeCode int // content code the next write produces (0: fsNew); set by vf.FS("image:<n>", "")
 }
 
 type crashPanic struct{}
@@ -218,7 +220,11 @@ func (in *Interp) osCall(fr *frame, fn *ssa.Function, full string, args []Value,
 		if f.closed {
 			return Tuple{ci(0), in.fsErr("write: file already closed", false)}, true
 		}
-		f.ino.vol = fsNew
+		if m.writeCode != 0 {
+			f.ino.vol = m.writeCode
+		} else {
+			f.ino.vol = fsNew
+		}
 		return Tuple{ci(1), &Iface{}}, true
 	case "os.Rename":
 		from, to := str(args[0]), str(args[1])
@@ -294,9 +300,19 @@ func (in *Interp) runUntilCrash(fr *frame, f Value, pos token.Pos) (res Value) {
 //	"content"    volatile content code of path (-1: absent)
 //	"after-crash" content code of path as found after a crash / power loss (symbolic choices)
 //	"steps"      number of file-system calls made so far
+//	"image:<n>"  the following writes produce content code n (n >= 4)
 func (in *Interp) fsCall(fr *frame, args []Value, pos token.Pos) Value {
 	m := in.fs()
 	op, name := str(args[0]), str(args[1])
+	if strings.HasPrefix(op, "image:") {
+		// the following writes produce content code n (>= 4: further images of a sequence of commits)
+		n, err := strconv.Atoi(op[len("image:"):])
+		if err != nil || n < 4 {
+			in.fail("unsupported", "vf.FS "+op)
+		}
+		m.writeCode = n
+		return ci(0)
+	}
 	switch op {
 	case "seed-old", "seed-stale":
 		m.inoSeq++
